@@ -410,7 +410,7 @@ def run_job(job, packages, known, replay_dir):
             prefix = stack.pop()
             STORE.reset()
             for p in packages.values():
-                p.interp.reset_run()
+                p.interp.reset_run(); p.reset_globals()
             ctx = Ctx(prefix)
             Ctx.cur = ctx
             env = SymEnv(ctx, packages)
@@ -527,7 +527,7 @@ def collect_paths(thunk, packages, rec, max_paths=5000):
         prefix = stack.pop()
         STORE.reset()
         for p in packages.values():
-            p.interp.reset_run()
+            p.interp.reset_run(); p.reset_globals()
         ctx = Ctx(prefix)
         Ctx.cur = ctx
         env = SymEnv(ctx, packages)
